@@ -8,7 +8,6 @@ import (
 	"go/types"
 	"os"
 	"path/filepath"
-	"regexp"
 	"sort"
 	"strings"
 	"sync"
@@ -181,7 +180,15 @@ func genFunction(prog *ssa.Program, cs *Contracts, fn *ssa.Function, fc *FuncCon
 		}
 		for _, cl := range fc.Clauses {
 			if cl.Kind == "ensures" {
-				c.oblige(rst, "post", cl.Label, cl.Props, c.evalBool(envE, cl.Expr), fn.Pos(), "postcondition: "+cl.Src)
+				o := c.oblige(rst, "post", cl.Label, cl.Props, c.evalBool(envE, cl.Expr), fn.Pos(), "postcondition: "+cl.Src)
+				if vals, plan := c.postReplayValues(fr, fr.old, "post"); plan != nil {
+					plan.Clause = cl
+					if len(fc.Params) > 0 {
+						plan.Names = fc.Params
+					}
+					o.Values = vals
+					o.Replay = plan
+				}
 			}
 		}
 		oc := c.oblige(rst, "cover", "exit-reachable", nil, tTrue, fn.Pos(), "a normal return is reachable under the precondition (vacuity guard)")
@@ -209,12 +216,12 @@ func (c *Ctx) recordParam(name string, v Val) {
 	switch x := v.(type) {
 	case T:
 		if !x.K.isArr() {
-			c.paramVals = append(c.paramVals, namedTerm{name, x})
+			c.paramVals = append(c.paramVals, namedTerm{"p/" + name, x})
 		}
 	case SliceV:
-		c.paramVals = append(c.paramVals, namedTerm{name + ".len", x.Len}, namedTerm{name + ".id", x.ID}, namedTerm{name + ".off", x.Off})
+		c.paramVals = append(c.paramVals, namedTerm{"len/" + name, x.Len})
 	case IfaceV:
-		c.paramVals = append(c.paramVals, namedTerm{name + ".ref", x.Ref})
+		c.paramVals = append(c.paramVals, namedTerm{"ref/" + name, x.Ref})
 	}
 }
 
@@ -301,7 +308,6 @@ func (o *Obligation) query() string {
 	return b.String()
 }
 
-var getValRe = regexp.MustCompile(`\(([A-Za-z0-9_.!$#]+) ((?:\([^()]*(?:\([^()]*\)[^()]*)*\))|[^()\s]+)\)`)
 
 func discharge(o *Obligation, outDir string, timeoutS int) *OblResult {
 	r := &OblResult{O: o}
@@ -324,10 +330,17 @@ func discharge(o *Obligation, outDir string, timeoutS int) *OblResult {
 	case !o.ExpectSat && sr.Status == "sat":
 		r.Status = "failed"
 		r.Model = map[string]string{}
-		for _, m := range getValRe.FindAllStringSubmatch(sr.Output, -1) {
-			for _, v := range o.Values {
-				if v.Term.S == m[1] {
-					r.Model[v.Name] = m[2]
+		if vals := parseGetValue(sr.Output); len(vals) == len(o.Values) {
+			for i, v := range o.Values {
+				if rv, ok := ratOf(vals[i]); ok {
+					if rv.IsInt() {
+						r.Model[v.Name] = rv.Num().String()
+					} else {
+						f, _ := rv.Float64()
+						r.Model[v.Name] = fmt.Sprintf("%s (~%g)", rv.RatString(), f)
+					}
+				} else {
+					r.Model[v.Name] = vals[i].String()
 				}
 			}
 		}
